@@ -386,6 +386,79 @@ static void c14_case(uint64_t idx)
     }
 }
 
+/* ------------------------------------------------------------------ C11 (definedness at the API boundary) */
+static void c11_case(uint64_t idx)
+{
+    vh_rng r; unsigned f = (unsigned)(idx % 8); uint64_t q = idx / 8;
+    static const char *const kn[8] = {"skinny128_set_key", "skinny128_set_tweaked_key", "skinny128_set_tweak", "skinny64_set_key", "skinny64_set_tweaked_key", "skinny64_set_tweak", "mantis_set_key", "mantis_set_tweak"};
+    unsigned bb = f < 3 ? 16 : 8, L; uint8_t src[64], blk[16], out[16]; int ret = 1; char k_[200];
+    vh_rng_seed(&r, vh_seed, 0x11, idx);
+    begin(idx, "C11");
+    vh_rand_bytes(&r, src, 64); vh_rand_bytes(&r, blk, 16);
+    switch (f % 3 + (f >= 6 ? 10 : 0)) {
+    case 0: L = bb + (unsigned)(q % (2 * bb + 1)); break;
+    case 1: L = bb + (unsigned)(q % (bb + 1)); break;
+    case 2: L = 1 + (unsigned)(q % bb); break;
+    case 10: L = 16; break;
+    default: L = 8; break;
+    }
+    snprintf(k_, sizeof(k_), "C11:%s:len-%s", kn[f], (f % 3 != 2 && f < 6 && L % bb) ? "in-between" : "regular"); vh_set_crash_key(k_);
+    if (vh_distinct(vh_hash(src, L, VH_HASH_INIT + f + 16 * L))) VH_COUNT("distinct_nontrivial_cases", 1);
+    vh_paint_stack((int)vh_below(&r, 256), 20000);
+    memset(out, 0, 16);
+    if (f < 3) {
+        Skinny128TweakedKey_t a;
+        vh_make_undef(&a, sizeof(a));
+        vh_call_begin(kn[f]);
+        if (f == 0) ret = skinny128_set_key(&a.ks, src, L);
+        else if (f == 1) ret = skinny128_set_tweaked_key(&a, src, L);
+        else { ret = skinny128_set_tweaked_key(&a, src + 32, 16 + 16 * (q & 1)); ret &= skinny128_set_tweak(&a, (q & 64) ? NULL : src, L); }
+        vh_call_end();
+        vh_check_defined("return-value", &ret, sizeof(ret));
+        vh_check_defined("schedule.rounds", &a.ks.rounds, sizeof(a.ks.rounds));
+        if (ret && a.ks.rounds <= SKINNY128_MAX_ROUNDS) vh_check_defined("schedule.round-keys", a.ks.schedule, a.ks.rounds * sizeof(a.ks.schedule[0]));
+        if (f) vh_check_defined("schedule.tweak", a.tweak, sizeof(a.tweak));
+        vh_call_begin("skinny128_ecb_encrypt"); skinny128_ecb_encrypt(out, blk, &a.ks); vh_call_end();
+        vh_check_defined("ciphertext", out, 16);
+        vh_call_begin("skinny128_ecb_decrypt"); skinny128_ecb_decrypt(out, blk, &a.ks); vh_call_end();
+        vh_check_defined("plaintext", out, 16);
+    } else if (f < 6) {
+        Skinny64TweakedKey_t a;
+        vh_make_undef(&a, sizeof(a));
+        vh_call_begin(kn[f]);
+        if (f == 3) ret = skinny64_set_key(&a.ks, src, L);
+        else if (f == 4) ret = skinny64_set_tweaked_key(&a, src, L);
+        else { ret = skinny64_set_tweaked_key(&a, src + 32, 8 + 8 * (q & 1)); ret &= skinny64_set_tweak(&a, (q & 64) ? NULL : src, L); }
+        vh_call_end();
+        vh_check_defined("return-value", &ret, sizeof(ret));
+        vh_check_defined("schedule.rounds", &a.ks.rounds, sizeof(a.ks.rounds));
+        if (ret && a.ks.rounds <= SKINNY64_MAX_ROUNDS) vh_check_defined("schedule.round-keys", a.ks.schedule, a.ks.rounds * sizeof(a.ks.schedule[0]));
+        if (f != 3) vh_check_defined("schedule.tweak", a.tweak, sizeof(a.tweak));
+        vh_call_begin("skinny64_ecb_encrypt"); skinny64_ecb_encrypt(out, blk, &a.ks); vh_call_end();
+        vh_check_defined("ciphertext", out, 8);
+        vh_call_begin("skinny64_ecb_decrypt"); skinny64_ecb_decrypt(out, blk, &a.ks); vh_call_end();
+        vh_check_defined("plaintext", out, 8);
+    } else {
+        MantisKey_t a;
+        vh_make_undef(&a, sizeof(a));
+        vh_call_begin(kn[f]);
+        ret = mantis_set_key(&a, src, 16, 5 + (unsigned)(q % 4), (int)((q >> 2) & 1));
+        if (f == 7) ret &= mantis_set_tweak(&a, (q & 64) ? NULL : src + 16, 8);
+        vh_call_end();
+        vh_check_defined("return-value", &ret, sizeof(ret));
+        vh_check_defined("schedule.k0", &a.k0, 8); vh_check_defined("schedule.k0prime", &a.k0prime, 8); vh_check_defined("schedule.k1", &a.k1, 8);
+        vh_check_defined("schedule.tweak", &a.tweak, 8); vh_check_defined("schedule.rounds", &a.rounds, sizeof(a.rounds));
+        vh_call_begin("mantis_ecb_crypt"); mantis_ecb_crypt(out, blk, &a); vh_call_end();
+        vh_check_defined("output", out, 8);
+        vh_call_begin("mantis_ecb_crypt_tweaked"); mantis_ecb_crypt_tweaked(out, blk, src + 24, &a); vh_call_end();
+        vh_check_defined("output", out, 8);
+    }
+    VH_COUNT("boundary_assertions", 6);
+    VH_COUNT("key_setting_calls_checked", 1);
+    if (ret != 1) { char key[300]; snprintf(key, sizeof(key), "%s:valid-call-rejected", k_); viol(key, idx, "{}"); }
+    if (vh_want_sample()) { char d[200]; snprintf(d, sizeof(d), "{\"function\":\"%s\",\"length\":%u,\"struct_prefilled\":\"undefined\",\"fields_checked\":\"rounds, round keys, tweak / k0,k0prime,k1,tweak,rounds; outputs\"}", kn[f], L); vh_sample(d); }
+}
+
 int main(int argc, char **argv)
 {
     int i;
@@ -397,6 +470,16 @@ int main(int argc, char **argv)
     for (i = 0; i < CIPH_N; ++i) { maxbe[i] = vh_max_backend(&vh_ciphers[i]); if (maxbe[i] < 0) { printf("{\"type\":\"inconclusive\",\"reason\":\"cannot identify back end\"}\n"); return 2; } }
     if (!strcmp(vh_arg_mode, "c10")) vh_run(c10_case);
     else if (!strcmp(vh_arg_mode, "c14")) vh_run(c14_case);
+    else if (!strcmp(vh_arg_mode, "c11")) {
+        if (!vh_def_available()) { printf("{\"type\":\"inconclusive\",\"reason\":\"definedness monitor not available in this build/run\"}\n"); return 2; }
+        {   /* positive control: an uninitialised local must be reported as undefined, an initialised one not */
+            volatile uint8_t u[8]; uint8_t dfn[8] = {0}; uint8_t *up = (uint8_t *)u;
+            vh_make_undef(up, 8);
+            if (vh_first_undef(up, 8) != 0 || vh_first_undef(dfn, 8) != -1) { printf("{\"type\":\"harness_error\",\"detail\":\"definedness positive control failed\"}\n"); return 2; }
+            *vh_counter_ref("max_definedness_positive_control") = 1;
+        }
+        vh_run(c11_case);
+    }
     else { fprintf(stderr, "drv_keys: unknown mode\n"); return 2; }
     vh_finish();
     return 0;
